@@ -566,7 +566,7 @@ func c19DecodeOnlyBodies(o *vOut, dog *c19Dog, r *vRand) {
 var c19Flavours = map[uint8][]string{
 	2: {"", "quagga"}, 3: {"", "quagga"}, 4: {"", "frr4", "frr3"},
 	5: {"", "frr5", "frr4", "cumulus"},
-	6: {"", "frr6", "frr7", "frr7.2", "frr7.3", "frr7.5", "frr8", "frr8.1", "frr8.2"},
+	6: {"", "frr6", "frr7", "frr7.1", "frr7.2", "frr7.3", "frr7.4", "frr7.5", "frr8", "frr8.1", "frr8.2"},
 }
 
 func TestVerifC19(t *testing.T) {
